@@ -447,6 +447,10 @@ def c12_plan(tier, seed):
     out = jobs("os-debug", "c12", 16, c12_env, {"max_packets": 4 if q else 6}, timeout=3000)
     if not q:
         out += jobs("os-release", "c12", 16, c12_env, {"max_packets": 4}, timeout=3000)
+        # the whole grid again at other packet sizes (every shape at every size, not one size per batch) and deeper
+        for sb in (4099, 12291, 16384):
+            out += jobs("os-debug", "c12", 16, lambda b, sb=sb: {"IPCMON_SNDBUF": sb}, {"max_packets": 6}, timeout=3000)
+        out += jobs("os-debug", "c12", 16, lambda b: {"IPCMON_SNDBUF": 8192}, {"max_packets": 9}, timeout=3000)
     return out
 
 
@@ -859,9 +863,9 @@ PROPS = {
                       "in alternation. Earlier messages must arrive intact, the target intact or not at all, Disconnected/closure only without a survivor, the "
                       "survivor's later messages must arrive in order and the observer must not wait forever (logical hang rule). A target whose send returned in the child (the child records it before exiting) must be delivered; when the target carries attachments the survivor's messages carry their own, checked by content.",
         "level_note": "Crash points are the libc-level system-call boundaries of the sending thread; a crash in the middle of a system call is not distinguishable "
-                      "from one before or after it at this level (the kernel completes or does not start a sendmsg). Packets are made small with a reported SO_SNDBUF of 8 KiB.",
+                      "from one before or after it at this level (the kernel completes or does not start a sendmsg). Packets are made small with a reported SO_SNDBUF of 8 KiB (one batch in eight: 16 KiB); the thorough tier repeats the whole grid at 4099, 12291 and 16384 bytes and once with up to 9 packets.",
         "technique": "runtime monitoring: exhaustive crash-point injection (SIGKILL before the k-th interposed call) with an outcome oracle over four observer kinds",
-        "rule": "case = (packets, attachments, survivor, observer, crash index k); every k in 0..=N for the N calls the send makes is run; distinct = that tuple; all are non-trivial",
+        "rule": "case = (packets, attachments, survivor, observer, crash index k, reported SO_SNDBUF); every k in 0..=N for the N calls the send makes is run; distinct = that tuple; all are non-trivial",
         "assumptions": ["SIGKILL delivered by the interposer immediately before the k-th call stands for a crash at that boundary"],
     },
     "C11": {
